@@ -13,7 +13,25 @@ import (
 	"math/rand/v2"
 	"reflect"
 	"strings"
+
+	"go.opentelemetry.io/collector/config/configopaque"
 )
+
+// structs whose type has MarshalText: on values (the encoder's TextMarshaler hook fires: one string) or
+// only on pointers (the hook does not see it on the struct value: encoded field by field)
+type C14TMV struct {
+	S configopaque.String `mapstructure:"s"`
+	N int                 `mapstructure:"n"`
+}
+
+func (C14TMV) MarshalText() ([]byte, error) { return []byte("tmv"), nil }
+
+type C14TMP struct {
+	S configopaque.String `mapstructure:"s"`
+	N int                 `mapstructure:"n"`
+}
+
+func (*C14TMP) MarshalText() ([]byte, error) { return []byte("tmp"), nil }
 
 type c14Type struct {
 	k      byte // O opaque leaf, S string, N int, P ptr, I any, L slice, A array, M map, T struct
@@ -73,6 +91,9 @@ func (g *c14Gen) genType(depth int, keyPos bool) *c14Type {
 		default:
 			return &c14Type{k: 'O'}
 		}
+	}
+	if !g.forFmt && g.rnd.IntN(10) == 0 {
+		return &c14Type{k: "VW"[g.rnd.IntN(2)]}
 	}
 	switch g.rnd.IntN(12) {
 	case 0, 1:
@@ -134,6 +155,9 @@ func (g *c14Gen) genVal(t *c14Type, depth int) *c14Val {
 	switch t.k {
 	case 'O':
 		v.idx = g.rnd.IntN(g.nsec)
+	case 'V', 'W':
+		v.idx = g.rnd.IntN(g.nsec)
+		v.n = g.rnd.IntN(2)
 	case 'S':
 		v.s = []string{"", "a", "b", "plain text", "[REDACTED]"}[g.rnd.IntN(5)]
 	case 'N':
@@ -206,6 +230,8 @@ func (v *c14Val) tokens(b *strings.Builder) {
 		fmt.Fprintf(b, "N%d ", v.n)
 	case 'Z', 'l', 'm':
 		fmt.Fprintf(b, "%c ", v.k)
+	case 'V', 'W':
+		fmt.Fprintf(b, "%c2 f:%s:e:-:- O%d f:%s:e:-:- N%d ", v.k, c14Hex("s"), v.idx, c14Hex("n"), v.n)
 	case 'P', 'I':
 		fmt.Fprintf(b, "%c ", v.k)
 		v.kids[0].tokens(b)
@@ -255,6 +281,10 @@ func (t *c14Type) rtype(leaf reflect.Type) reflect.Type {
 		return reflect.TypeOf("")
 	case 'N':
 		return reflect.TypeOf(0)
+	case 'V':
+		return reflect.TypeOf(C14TMV{})
+	case 'W':
+		return reflect.TypeOf(C14TMP{})
 	case 'P':
 		return reflect.PointerTo(t.elem.rtype(leaf))
 	case 'I':
@@ -298,6 +328,9 @@ func (v *c14Val) fill(dst reflect.Value, leaf reflect.Type, secrets []string, re
 	switch v.k {
 	case 'O':
 		dst.Set(reflect.ValueOf(secrets[v.idx]).Convert(leaf))
+	case 'V', 'W':
+		dst.Field(0).SetString(secrets[v.idx])
+		dst.Field(1).SetInt(int64(v.n))
 	case 'S':
 		dst.SetString(v.s)
 	case 'N':
@@ -373,7 +406,7 @@ func (v *c14Val) fill(dst reflect.Value, leaf reflect.Type, secrets []string, re
 
 // hasOpaque reports whether an opaque leaf occurs in the value.
 func (v *c14Val) hasOpaque() bool {
-	if v.k == 'O' {
+	if v.k == 'O' || v.k == 'V' || v.k == 'W' {
 		return true
 	}
 	for _, k := range v.kids {
